@@ -119,7 +119,15 @@ def _r1(chk, repo):
     from ..pattern import statements as _st, unify as _un
     pats = ["$x=self._x0.copy()", "$r=self._b-self._apply_A($x,1)", "$s=self._apply_Pinv(self._apply_A($r,2),2)", "$t=self._apply_Pinv($p,1)", "$q=self._apply_A($t,1)",
             "$x+=$al*$t", "$r-=$al*$q", "$p=$s+$be*$p"]
-    bb, fail = _un(pats, _st(sv, nested=True))
+    from .common import match as _match
+    bb, fail = None, 0
+    for last in ("$p=$s+$be*$p", "$p=$s+$ga/$gb*$p"):       # beta held in a local, or written out as gamma_new / gamma_old
+        r_ = _match(repo, pc, sv, pats[:-1] + [last])
+        if r_ is not None:
+            bb = r_
+            break
+    if bb is None:
+        _, fail = _un(pats, _st(sv, nested=True))
     chk.add("C16-R1", f"{pc.qual}.solve", bb is not None, site(repo, sv), "s = P^-T A^T r, t = P^-1 p, q = A t, x += alpha t",
             f"preconditioned recurrences changed: `{pats[fail] if bb is None else ''}` has no consistent match", sv)
     cg_src = repo.method(repo.cls(f"{SOLVER}:CGLS"), "solve")[1]
@@ -172,11 +180,63 @@ def _r2(chk, repo):
 def _r3(chk, repo):
     mx = repo.cls(f"{SOLVER}:maximize")
     init = repo.method(mx, "__init__")[1]
-    t = _norm(init)
-    ok = "defnfunc(*args,**kwargs):return-func(*args,**kwargs)" in t and "defngradfunc(*args,**kwargs):return-gradfunc(*args,**kwargs)" in t \
-        and "super().__init__(nfunc,x0,ngradfunc,method,**kwargs)" in t and "ifgradfuncisnotNone:" in t and "ngradfunc=gradfunc" in t
-    chk.add("C16-R3", f"{mx.qual}.__init__", ok, site(repo, init), "minimise -f with gradient -g (or no gradient)",
-            "maximize does not negate the function and its gradient together", init)
+    # what reaches minimize.__init__, followed path by path over "a gradient is given": the objective must be the negated function and the gradient the
+    # negated gradient (or none); closures are compared by their single expression
+    from ..pathtable import walk_paths
+    from ..pattern import norm as pn
+    from ..canon import _single_expr
+    iv = canon_fn(repo, mx, init, 1)
+    base_init = repo.method(repo.cls(f"{SOLVER}:minimize"), "__init__")[1]
+    bps = [a_.arg for a_ in base_init.args.args][1:]
+    fpar, x0par, gpar, mpar = func_params(init)[1:5]
+
+    def negation_of(v, target):
+        """v is `def h(*a, **k): return -target(*a, **k)` (or the lambda)"""
+        if isinstance(v, ast.FunctionDef):
+            from ..canon import substituted, structural
+            hb = [x for x in substituted(structural(v)).body if not (isinstance(x, ast.Expr) and isinstance(x.value, ast.Constant))]
+            e, ar = (hb[0].value if len(hb) == 1 and isinstance(hb[0], ast.Return) else None), v.args
+        elif isinstance(v, ast.Lambda):
+            e, ar = v.body, v.args
+        else:
+            return False
+        if e is None or ar.args or ar.kwonlyargs or not ar.vararg or not ar.kwarg:
+            return False
+        return pn(e) == pn(f"-{target}(*{ar.vararg.arg},**{ar.kwarg.arg})")
+
+    def is_super(a_):
+        return isinstance(a_, ast.Expr) and isinstance(a_.value, ast.Call) and pn(a_.value.func) == "super().__init__"
+    problems, und = [], []
+    for given in (True, False):
+        val = {pn(f"{gpar} is not None"): given, pn(f"{gpar} is None"): not given}
+        stops = walk_paths(iv, val, pn, stop_pred=is_super)
+        if not stops or any(k_ != "stop" for k_, _ in stops):
+            und.append(f"[gradient given={given}] minimize.__init__ is not reached on every path: {[k_ for k_, _ in stops]}")
+            continue
+        for _, (env, st) in stops:
+            c = st.value
+            if any(isinstance(x, ast.Starred) for x in c.args):
+                und.append("starred positional arguments")
+                continue
+            b_ = dict(zip(bps, c.args))
+            b_.update({k.arg: k.value for k in c.keywords if k.arg is not None})
+            res = {k: (env.get(v_.id, v_) if isinstance(v_, ast.Name) else v_) for k, v_ in b_.items()}
+            if not negation_of(res.get(bps[0]), fpar):
+                problems.append(f"[gradient given={given}] the minimised objective is not the negated function")
+            gv = res.get(bps[2])
+            if given and not negation_of(gv, gpar):
+                problems.append("a given gradient is not negated together with the function (minimising -f with the gradient of +f)")
+            if not given and not (gv is None or (isinstance(gv, ast.Constant) and gv.value is None) or path_of(gv) == gpar):
+                problems.append("without a gradient the base class does not receive None")
+            if path_of(res.get(bps[1])) != x0par or (bps[3] in res and path_of(res[bps[3]]) != mpar) or not any(k.arg is None for k in c.keywords):
+                problems.append("x0 / method / further options are not forwarded unchanged")
+    ok = not problems and not und
+    if und and not problems:
+        chk.unknown("C16-R3", f"{mx.qual}.__init__", site(repo, init), "; ".join(und), init)
+        ok = None
+    if ok is not None:
+        chk.add("C16-R3", f"{mx.qual}.__init__", ok, site(repo, init), "minimise -f with gradient -g (or no gradient)",
+                "maximize does not negate the function and its gradient together: " + "; ".join(sorted(set(problems))), init)
     if "solve" in mx.methods:
         chk.fail("C16-R3", f"{mx.qual}.solve", site(repo, mx.methods["solve"]), "maximize overrides solve (result may be altered)", mx.methods["solve"])
     from ..pathtable import walk
@@ -242,7 +302,11 @@ def _r4_r5(chk, repo):
             "if: LA.norm($xn-$xo)<=self.abstol or $k>=self.maxit", "return ($xn,$k)", "if: self.adaptive", "$xn=$xn+($k-1)/($k+2)*($xn-$xo)", "$x=$xn.copy()"]
     msgs = ["start from a copy of x0", "configured step size", "previous iterate copied", "gradient A'(Ax - b)", "prox(x - t*grad, t) with the same t",
             "stops on small update or maxit", "returns the proximal point", "momentum only when adaptive", "FISTA momentum", "next iterate"]
-    b, fail = unify(pats, S)
+    from .common import match as _match
+    b = _match(repo, fi, sv, pats)            # over all views: temporaries (residual, update, momentum factor) folded into their uses
+    fail = 0
+    if b is None:
+        b, fail = unify(pats, S)
     problems = [] if b is not None else [f"{msgs[fail]} (`{pats[fail]}` has no consistent match)"]
     if b is not None:
         g = CFG(sv)
@@ -250,12 +314,17 @@ def _r4_r5(chk, repo):
         if not mom or not any(_norm(t.ast) == "self.adaptive" and lab == "T" for t, lab in g.guards_of(mom[0])):
             problems.append("momentum step is not restricted to the adaptive (FISTA) mode")
     chk.add("C16-R4", f"{fi.qual}.solve", not problems, site(repo, sv), "(F)ISTA iteration", "; ".join(problems), sv)
-    for name, want in (("ProjectNonnegative", ["returnnp.maximum(x,0)"]),
-                       ("ProjectBox", ["iflowerisNone:lower=np.zeros_like(x)", "ifupperisNone:upper=np.ones_like(x)", "returnnp.minimum(np.maximum(x,lower),upper)"]),
-                       ("ProximalL1", ["returnnp.multiply(np.sign(x),np.maximum(np.abs(x)-gamma,0))"])):
+    from .common import closed_outcomes, expected_text
+    specs5 = (("ProjectNonnegative", lambda x: [{f"np.maximum({x},0)"}]),
+              ("ProjectBox", lambda x, lo, up: [{f"np.minimum(np.maximum({x},{l_}),{u_})" for l_ in (lo, f"np.zeros_like({x})") for u_ in (up, f"np.ones_like({x})")}]),
+              ("ProximalL1", lambda x, g_: [{f"np.multiply(np.sign({x}),np.maximum(np.abs({x})-{g_},0))"}, {f"np.sign({x})*np.maximum(np.abs({x})-{g_},0)"}]))
+    for name, wantf in specs5:
         fn = repo.func(f"{SOLVER}:{name}")
-        body = [_norm(s) for s in strip_docstring(fn.body)]
-        chk.add("C16-R5", f"{SOLVER}:{name}", body == want, site(repo, fn), "textbook expression", f"{name} is {body}", fn)
+        outs = closed_outcomes(repo, None, fn)
+        got = {t for k_, t in outs if k_ == "return"}
+        alts = [{expected_text(w) for w in alt} for alt in wantf(*func_params(fn))]
+        ok = all(k_ == "return" for k_, _ in outs) and any(got == alt for alt in alts)
+        chk.add("C16-R5", f"{SOLVER}:{name}", ok, site(repo, fn), "textbook expression", f"{name} is {sorted(outs, key=str)}", fn)
 
 
 # ------------------------------------------------------------------------------------------------ R6
